@@ -100,6 +100,7 @@ while IFS= read -r p; do
   else echo "C <missing>" >> "$f.tmp"; echo "H <missing>" >> "$f.tmp"; fi
 done
 if [ -f "$d/merge_fails" ]; then echo "RC 1" >> "$f.tmp"; mv "$f.tmp" "$f"; echo "stub: merge failure requested" >&2; exit 1; fi
+if [ -f "$d/merge_warns" ]; then echo "warning: $out: malformed instrumentation profile data; 1 profile skipped (stub diagnostic, exit status stays 0)" >&2; echo "WARN 1" >> "$f.tmp"; fi
 [ -n "$out" ] && echo "merged-$$" > "$out"
 echo "TOKEN merged-$$" >> "$f.tmp"
 echo "RC 0" >> "$f.tmp"
@@ -119,6 +120,7 @@ prof=""; prev=""
 for a in "$@"; do [ "$prev" = "--instr-profile" ] && prof="$a"; prev="$a"; done
 if [ -f "$prof" ]; then printf 'TOKEN %s\n' "$(head -n 1 "$prof")" >> "$f.tmp"; else echo "TOKEN <missing>" >> "$f.tmp"; fi
 if [ -n "$id" ] && [ -f "$d/canned/$id.info" ]; then
+  if [ -f "$d/warn/$id" ]; then echo "WARN 1" >> "$f.tmp"; echo "warning: 3 functions have mismatched data" >&2; fi
   echo "RC 0" >> "$f.tmp"; mv "$f.tmp" "$f"; cat "$d/canned/$id.info"; exit 0
 fi
 echo "RC 1" >> "$f.tmp"; mv "$f.tmp" "$f"
@@ -127,9 +129,16 @@ exit 1
 """
 
 
-def install_stubs(tools_dir, canned, merge_fails=False):
+def install_stubs(tools_dir, canned, merge_fails=False, merge_warns=False, warn_ids=()):
+    """warn_ids: binaries whose export succeeds (exit 0, complete lcov on stdout) AND prints a diagnostic on stderr, as
+    llvm-cov does ("warning: N functions have mismatched data"); merge_warns: the same for llvm-profdata merge."""
     os.makedirs(os.path.join(tools_dir, "log"))
     os.makedirs(os.path.join(tools_dir, "canned"))
+    os.makedirs(os.path.join(tools_dir, "warn"))
+    for bid in warn_ids:
+        open(os.path.join(tools_dir, "warn", bid), "w").close()
+    if merge_warns:
+        open(os.path.join(tools_dir, "merge_warns"), "w").close()
     for name, body in (("llvm-profdata", STUB_PROFDATA), ("llvm-cov", STUB_COV)):
         p = os.path.join(tools_dir, name)
         with open(p, "w") as f:
@@ -155,9 +164,9 @@ def read_log(tools_dir):
         if fn.startswith("profdata."):
             merges.append({"argv": argv, "paths": [l[2:] for l in lines if l.startswith("P ")],
                            "ids": [l[2:] for l in lines if l.startswith("C ")],
-                           "hashes": [l[2:] for l in lines if l.startswith("H ")], "token": get("TOKEN"), "rc": int(get("RC"))})
+                           "hashes": [l[2:] for l in lines if l.startswith("H ")], "token": get("TOKEN"), "rc": int(get("RC")), "warned": get("WARN") == "1"})
         else:
-            exports.append({"argv": argv, "id": get("ID"), "token": get("TOKEN"), "rc": int(get("RC"))})
+            exports.append({"argv": argv, "id": get("ID"), "token": get("TOKEN"), "rc": int(get("RC")), "warned": get("WARN") == "1"})
     return merges, exports
 
 
